@@ -260,9 +260,24 @@ impl Layer {
         self.lines.insert(index as usize, line);
     }
 
+    /// true if `set_char` at `pos` would store the character
+    fn can_set_char(&self, pos: Position) -> bool {
+        if pos.x < 0 || pos.y < 0 || pos.x >= self.get_width() || pos.y >= self.get_height() {
+            return false;
+        }
+        if self.properties.is_locked || !self.properties.is_visible {
+            return false;
+        }
+        !(self.properties.has_alpha_channel && self.properties.is_alpha_channel_locked) || self.get_char(pos).is_visible()
+    }
+
     pub fn swap_char(&mut self, pos1: impl Into<Position>, pos2: impl Into<Position>) {
         let pos1 = pos1.into();
         let pos2 = pos2.into();
+        // both cells have to take the write, otherwise one of the two characters is lost for good
+        if !self.can_set_char(pos1) || !self.can_set_char(pos2) {
+            return;
+        }
         let tmp = self.get_char(pos1);
         self.set_char(pos1, self.get_char(pos2));
         self.set_char(pos2, tmp);
